@@ -162,6 +162,8 @@ class ProbeCrashed(Exception):
 def run_property(mod, pid, tier, seed):
     chk = Check(pid, tier, seed)
     try:
+        if hasattr(mod, "pre"):
+            mod.pre(chk)      # regenerate coq/gen tables from /repo before the proof obligations are checked
         failed = chk.prove()
         for n, d in failed:
             C.log("obligation failed: %s\n%s" % (n, d))
